@@ -139,7 +139,7 @@ Definition macro_include (pb : list block -> cst -> cst) (cs : cst) : cst :=
 (* processUserMacro *)
 Definition user_macro (pb : list block -> cst -> cst) (m : umdef) (n : str) (l : nat) (cs : cst) : cst :=
   let '(c, s0) := cs in
-  if Nat.ltb 42 (cdepth s0) then (c, if process s0 then err "recursive macro: too much depth" s0 else s0) else
+  if Nat.ltb 42 (cdepth c) then (c, if process s0 then err "recursive macro: too much depth" s0 else s0) else
   if Nat.leb max_macro_expansions (xcount c) then
     (set_budget (xcount c) true c, if process s0 && negb (xexh c) then err "recursive macro: too many expansions" s0 else s0)
   else
@@ -154,10 +154,11 @@ Definition user_macro (pb : list block -> cst -> cst) (m : umdef) (n : str) (l :
       fold_left (fun '(acc, s) b0 => let '(b1, s') := subst_block (um_argsc m) (po_args o) (po_opts o) (po_flags o) b0 s in (acc ++ [b1], s'))
                 (um_blocks m) ([], sc)
     else (um_blocks m, sc) in
-  let se := if Nat.eqb (cdepth sd) 0 then sd <| cloc := Some (l, n, cfile sd) |> else sd in
-  let '(cf, sf) := pb blocks (c, se <| cdepth ::= S |> <| has_cur := true |> <| cfile := um_file m |>) in
-  let sg := sf <| cdepth ::= Nat.pred |> <| has_cur := has_cur s0 |> <| cfile := cfile s0 |> in
-  if Nat.eqb (cdepth sg) 0 then (set_budget 0 false cf, sg <| cloc := None |>) else (cf, sg).
+  let se := if Nat.eqb (cdepth c) 0 then sd <| cloc := Some (l, n, cfile sd) |> else sd in
+  let '(cf, sf) := pb blocks (set_cdepth (S (cdepth c)) c, se <| has_cur := true |> <| cfile := um_file m |>) in
+  let cg := set_cdepth (Nat.pred (cdepth cf)) cf in
+  let sg := sf <| has_cur := has_cur s0 |> <| cfile := cfile s0 |> in
+  if Nat.eqb (cdepth cg) 0 then (set_budget 0 false cg, sg <| cloc := None |>) else (cg, sg).
 
 (* the rendering and declaration macros: functions of the rendering state alone *)
 Definition builtin (n : str) : option (st -> st) :=
@@ -239,7 +240,7 @@ Definition init_st : st :=
        (mkToc false false 0 0 0 0 0 0 0 0 0) [] [] [] [] [] [] []
        0 0 0 0 [] [] false false [] 0 false 0 [] []
        [(R "xhtml-index", R "full"); (R "lang", R "en")] [] []
-       0 None [] [] 0 None [] false false (R "xhtml") [] false false 0%Z [] [] [] 0 [] [] [] [] None.
+       0 None [] [] None [] false false (R "xhtml") [] false false 0%Z [] [] [] 0 [] [] [] [] None.
 
 Definition reset (s : st) : st :=
   init_st <| format := format s |> <| existing := existing s |> <| urls := urls s |> <| filters := filters s |>
@@ -282,7 +283,7 @@ Definition eof_sweep (s2 : st) : st :=
   match udef s6 with Some _ => err "found End Of File while #de isn't closed" s6 | None => s6 end.
 
 Definition start_ctl (wd : world) (main : str) : ctl :=
-  mkCtl (w_unrestricted wd) [] 0 false [PathClean.clean main] (w_fs wd) (w_libdirs wd).
+  mkCtl (w_unrestricted wd) [] 0 0 false [PathClean.clean main] (w_fs wd) (w_libdirs wd).
 Definition start_st (fmtname : str) (md : nat) (wd : world) (main : str) : st :=
   init_st <| format := fmtname |> <| mode := md |> <| existing := w_existing wd |> <| urls := w_urls wd |> <| cfile := main |>
           <| params := (if str_eqb fmtname (R "xhtml") || str_eqb fmtname (R "epub") then [(R "xhtml-index", R "full"); (R "lang", R "en")] else [(R "lang", R "en")]) |>.
